@@ -6,7 +6,7 @@
 """
 import json, os, re, shutil, subprocess, sys, glob
 REPO = "/repo"
-OUT = "/tmp/msweep"
+OUT = os.environ.get("MSWEEP_OUT", "/tmp/msweep")
 FILES = sorted(glob.glob(REPO + "/src/internal/*.rs")) + [REPO + "/ffi/src/lib.rs"]
 REL = [(" <= ", " < "), (" < ", " <= "), (" >= ", " > "), (" > ", " >= "), (" == ", " != "), (" != ", " == ")]
 ARI = [(" + ", " - "), (" - ", " + "), (" << ", " >> "), (" >> ", " << "), (" | ", " & "), (" & ", " | ")]
@@ -28,6 +28,9 @@ def code_lines(path):
     return lines, out
 
 
+MODE = os.environ.get("MSWEEP_MODE", "v1")
+
+
 def gen():
     muts = []
     for path in FILES:
@@ -38,25 +41,41 @@ def gen():
             if '"' in code and re.search(r'"[^"]*( [<>=!&|+-]+ )[^"]*"', code):
                 continue  # operators inside string literals
             typey = re.search(r"\bfn\b|\bimpl\b|::<|->|\bwhere\b|\bstruct\b|\benum\b|\btype\b|<'|Vec<|Option<|Box<|Rc<|Result<|HashMap<|HashSet<|BTreeMap<|: &", code) is not None
-            for a, b in REL + ARI + LOG:
+            for a, b in ([] if MODE == "v2" else REL + ARI + LOG):
                 if a in (" < ", " > ", " >> ", " << ", " & ", " | ") and typey:
                     continue
                 for m in re.finditer(re.escape(a), code):
                     # avoid matching " < " inside " <= " etc.
                     new = code[:m.start()] + b + code[m.end():] + l[len(code):]
                     muts.append(dict(file=rel, line=i, old=l, new=new, op="%s->%s" % (a.strip(), b.strip())))
-            for m in re.finditer(r"\bif !(?=[a-z_(])", code):
+            for m in ([] if MODE == "v2" else re.finditer(r"\bif !(?=[a-z_(])", code)):
                 muts.append(dict(file=rel, line=i, old=l, new=code[:m.start()] + "if " + code[m.end():] + l[len(code):], op="drop-not"))
-            for m in re.finditer(r"(?<![\w.\"'#x])(\d+)(?![\w.\"'])", code):
+            for m in ([] if MODE == "v2" else re.finditer(r"(?<![\w.\"'#x])(\d+)(?![\w.\"'])", code)):
                 if re.search(r"\[[^\]]*$", code[:m.start()]) and "]" in code[m.end():] and ";" in code[m.start():]:
                     continue
                 n = int(m.group(1))
                 if n > 100000 or re.search(r"0x[0-9a-fA-F_]*$", code[:m.start()]):
                     continue
                 muts.append(dict(file=rel, line=i, old=l, new=code[:m.start()] + str(n + 1) + code[m.end():] + l[len(code):], op="const+1"))
-            for w, r_ in (("true", "false"), ("false", "true")):
+            for w, r_ in ([] if MODE == "v2" else (("true", "false"), ("false", "true"))):
                 for m in re.finditer(r"\b%s\b" % w, code):
                     muts.append(dict(file=rel, line=i, old=l, new=code[:m.start()] + r_ + code[m.end():] + l[len(code):], op="%s->%s" % (w, r_)))
+            if MODE == "v2":
+                # second operator set: fallible statements dropped, constants decremented, paired library calls exchanged
+                s2 = code.strip()
+                if re.fullmatch(r"[a-z_][\w.:<>]*\([^;]*\)\?;", s2) and not s2.startswith(("let ", "return")):
+                    muts.append(dict(file=rel, line=i, old=l, new=re.sub(r"\S.*$", "// (statement removed)", l), op="del-try-stmt"))
+                for m in re.finditer(r"(?<![\w.\"'#x])(\d+)(?![\w.\"'])", code):
+                    n = int(m.group(1))
+                    if 0 < n <= 100000 and not re.search(r"0x[0-9a-fA-F_]*$", code[:m.start()]):
+                        muts.append(dict(file=rel, line=i, old=l, new=code[:m.start()] + str(n - 1) + code[m.end():] + l[len(code):], op="const-1"))
+                for a, b in ((".min(", ".max("), (".max(", ".min("), ("saturating_add", "saturating_sub"), ("saturating_sub", "saturating_add"), ("checked_add", "checked_sub"),
+                             ("checked_sub", "checked_add"), ("wrapping_add", "wrapping_sub"), ("wrapping_sub", "wrapping_add"), (".is_some()", ".is_none()"), (".is_none()", ".is_some()"),
+                             (".is_ok()", ".is_err()"), ("checked_shl", "checked_shr"), ("checked_shr", "checked_shl"), (".next()", ".next_back()"), ("into_iter()", "into_iter().rev()"),
+                             (".iter()", ".iter().rev()"), ("as i16", "as i8"), ("as u16", "as u8"), (" as i32", " as i16 as i32")):
+                    for m in re.finditer(re.escape(a), code):
+                        muts.append(dict(file=rel, line=i, old=l, new=code[:m.start()] + b + code[m.end():] + l[len(code):], op="%s->%s" % (a.strip(" .("), b.strip(" .("))))
+                continue
             s = code.strip()
             if re.fullmatch(r"(self\.[a-z_.]+\([^;]*\);|self\.[a-z_]+ = [^;]+;|[a-z_]+\.[a-z_]+\([^;]*\);|\*?[a-z_]+ [+\-|]?= [^;]+;)", s) and not s.startswith("let "):
                 muts.append(dict(file=rel, line=i, old=l, new=re.sub(r"\S.*$", "// (statement removed)", l), op="del-stmt"))
